@@ -63,9 +63,20 @@ func runC01(r *simkit.Run) {
 		r.InfraFail("other eon keys: %v", err)
 	}
 	var ids [][]byte
+	// half of the runs use identities of the on-chain layout (32-byte big-endian counter followed
+	// by a 20-byte sender): long byte strings that differ in a few middle bytes only
+	structured := c.Bool("structured-identities")
 	for i := 0; i < nid; i++ {
-		ids = append(ids, []byte(fmt.Sprintf("id-%d", i)))
+		if structured {
+			id := make([]byte, 52)
+			id[30], id[31] = byte(c.Intn(2, "id-hi")), byte(i+1)
+			copy(id[32:], bytes.Repeat([]byte{0xab}, 20))
+			ids = append(ids, id)
+		} else {
+			ids = append(ids, []byte(fmt.Sprintf("id-%d", i)))
+		}
 	}
+	sort.Slice(ids, func(i, j int) bool { return bytes.Compare(ids[i], ids[j]) < 0 })
 	nd.db.SetRowOrder(func(k int, sql string) []int {
 		r.Probe("row-permutations")
 		return c.Perm(k, "db.row_permute")
@@ -82,6 +93,7 @@ func runC01(r *simkit.Run) {
 	}
 
 	mkShares := func(sender int, sub [][]byte, kind string) *c01Msg {
+		dup := c.Chance(200, "duplicate-entry")
 		m := &c01Msg{sender: sender, ids: sub, valid: kind == "valid", kind: kind}
 		var shares []*p2pmsg.KeyShare
 		bad := c.Intn(len(sub), "bad-position")
@@ -98,6 +110,17 @@ func runC01(r *simkit.Run) {
 				sh = w.keys.EpochSecretKeyShare(identitypreimage.IdentityPreimage(id), sender)
 			}
 			shares = append(shares, &p2pmsg.KeyShare{IdentityPreimage: id, Share: sh.Marshal()})
+		}
+		if dup && len(shares) > 1 {
+			// repeat the entry in front of the (possibly bad) one: equal identities are legal
+			// (non-decreasing), every entry must be checked all the same
+			at := bad
+			if at == 0 {
+				at = 1
+			}
+			cp := &p2pmsg.KeyShare{IdentityPreimage: shares[at-1].IdentityPreimage, Share: shares[at-1].Share}
+			shares = append(shares[:at], append([]*p2pmsg.KeyShare{cp}, shares[at:]...)...)
+			m.kind += "+dup"
 		}
 		if kind == "other-keyper" && t == 1 {
 			// degree-0 polynomials: every keyper holds the same share, so this is a valid share
